@@ -24,6 +24,7 @@ def sop? (tok : String) : Option SOp :=
   | ["C", p, x] => do some (.child (← actorId? p) (← actorId? x))
   | ["W", a, b] => do some (.watch (← actorId? a) (← actorId? b))
   | ["U", a, b] => do some (.unwatch (← actorId? a) (← actorId? b))
+  | ["F", x] => (actorId? x).map .fail
   | ["K", x] => (actorId? x).map .stop
   | ["P", x] => (actorId? x).map .stop
   | ["Q", x] => (actorId? x).map .stop
